@@ -48,6 +48,7 @@ pub fn run(name: &str, seed: u64, rest: &[String]) -> String {
         "adpcm" => adpcm_oracle(seed),
         "dbc_paths" => dbc_paths(seed),
         "extract_paths" => extract_paths(seed),
+        "m2_model" => m2_model(seed),
         "alloc_bound" => alloc_bound(rest.first().map(|s| s.as_str()).unwrap_or("")),
         "adt_water" => adt_water(seed),
         "mod_options" => mod_options(seed),
@@ -2167,4 +2168,69 @@ fn alloc_bound(only: &str) -> String {
         }
     }
     none("alloc_bound", tried)
+}
+
+
+// ---- C13: whole-model write -> parse with bone key-frame blocks that are shared between bones or private --------------------
+fn m2_model(seed: u64) -> String {
+    use std::io::Cursor;
+    use wow_m2::chunks::bone::M2Bone;
+    use wow_m2::chunks::vertex::M2Vertex;
+    use wow_m2::common::{C2Vector, C3Vector, M2Array};
+    use wow_m2::header::M2Header;
+    use wow_m2::model::{BoneAnimationRaw, TrackType};
+    use wow_m2::{M2Model, M2Version};
+    let mut rng = Rng(seed ^ 0x3D2);
+    let mut tried = 0;
+    for round in 0..12u32 {
+        let nb = 1 + (rng.next() % 4) as usize;
+        let mut model = M2Model::default();
+        model.header = M2Header::new(M2Version::Vanilla);
+        model.name = Some(format!("Model{}", round));
+        let mut shape = Vec::new();
+        for i in 0..nb {
+            // bones 1.. share bone 0's timestamp block with probability 1/2
+            let shared = i > 0 && rng.next() % 2 == 0;
+            let ts_ofs = if shared { 0x1000 } else { 0x1000 + 0x100 * i as u32 };
+            let v_ofs = 0x4000 + 0x100 * i as u32;
+            let mut bone = M2Bone::new(i as i32, i as i16 - 1);
+            bone.translation.ranges = Some(M2Array::new(0, 0));
+            bone.translation.timestamps = M2Array::new(2, ts_ofs);
+            bone.translation.values = M2Array::new(2, v_ofs);
+            bone.pivot = C3Vector { x: i as f32, y: 0.5, z: -0.5 };
+            model.bones.push(bone);
+            let ts: Vec<u8> = if shared { [0u32, 1000] } else { [0u32, 500 + i as u32] }.iter().flat_map(|x| x.to_le_bytes()).collect();
+            let vals: Vec<u8> = (0..6).map(|k| (i * 10 + k) as f32).flat_map(|x| x.to_le_bytes()).collect();
+            model.raw_data.bone_animation_data.push(BoneAnimationRaw { bone_index: i, track_type: TrackType::Translation, timestamps: if shared || i == 0 { [0u32, 1000].iter().flat_map(|x| x.to_le_bytes()).collect() } else { ts },
+                values: vals, ranges: None, original_timestamps_offset: if i == 0 { 0x1000 } else { ts_ofs }, original_values_offset: v_ofs, original_ranges_offset: None });
+            shape.push(if shared { "shared" } else { "own" });
+        }
+        model.key_bone_lookup = (0..nb as u16).chain([0xFFFF]).collect();
+        for i in 0..3 { model.vertices.push(M2Vertex { position: C3Vector { x: 10.0 + i as f32, y: 20.0, z: 30.0 }, bone_weights: [200, 55, 0, 0], bone_indices: [0, 0, 0, 0], normal: C3Vector { x: 0.0, y: 0.0, z: 1.0 }, tex_coords: C2Vector { x: 0.25, y: 0.75 }, tex_coords2: Some(C2Vector { x: 0.5, y: 0.125 }) }); }
+        let desc = format!("Vanilla model, {} bones, timestamp blocks {:?}, key-bone lookup of {}, 3 vertices", nb, shape, nb + 1);
+        tried += 1;
+        let m2 = model.clone();
+        let r = catch(move || -> Result<(), String> {
+            let mut buf = Cursor::new(Vec::new());
+            m2.write(&mut buf).map_err(|e| format!("write: {}", e))?;
+            let bytes = buf.into_inner();
+            let parsed = M2Model::parse(&mut Cursor::new(bytes.clone())).map_err(|e| format!("parse of the written bytes: {}", e))?;
+            if parsed.name != m2.name { return Err(format!("name {:?}", parsed.name)); }
+            if parsed.bones.len() != m2.bones.len() { return Err(format!("{} bones", parsed.bones.len())); }
+            if parsed.key_bone_lookup != m2.key_bone_lookup { return Err(format!("key-bone lookup {:?} instead of {:?}", parsed.key_bone_lookup, m2.key_bone_lookup)); }
+            if parsed.vertices.len() != m2.vertices.len() { return Err(format!("{} vertices", parsed.vertices.len())); }
+            for (a, b) in m2.vertices.iter().zip(parsed.vertices.iter()) { if a.position != b.position || a.bone_weights != b.bone_weights || a.tex_coords != b.tex_coords { return Err("vertex content changed".into()); } }
+            for (a, b) in m2.bones.iter().zip(parsed.bones.iter()) { if a.pivot != b.pivot || a.bone_id != b.bone_id || a.translation.timestamps.count != b.translation.timestamps.count { return Err("bone content changed".into()); } }
+            let mut buf2 = Cursor::new(Vec::new());
+            parsed.write(&mut buf2).map_err(|e| format!("second write: {}", e))?;
+            if buf2.into_inner() != bytes { return Err("second write is not byte-identical".into()); }
+            Ok(())
+        });
+        match r {
+            Err(p) => return fail("m2_model", desc, format!("panic: {}", p), "round trip".into()),
+            Ok(Err(e)) => return fail("m2_model", desc, e, "write -> parse same content, second write byte-identical".into()),
+            Ok(Ok(())) => {}
+        }
+    }
+    none("m2_model", tried)
 }
